@@ -381,6 +381,15 @@ func runC14(c C14Case) (res common.Result) {
 		res.Fail = common.Failf("acked-lost-after-close/"+sig, "after Close and reopen: %s (acknowledged calls: %d versions; schedule %v)", msg, len(versions), ctl.Trace)
 		return
 	}
+	// and the reopened WAL accepts appends (a rotation that Close cut short must be completed by Open)
+	nl := kit.EntrySpec{DataLen: 5, Seed: 9}.Make(final.Last+1, 3)
+	if final.Empty() {
+		nl = kit.EntrySpec{DataLen: 5, Seed: 9}.Make(1, 3)
+	}
+	if err := w2.StoreLogs([]*raft.Log{nl}); err != nil {
+		res.Fail = common.Failf("append-refused-after-close", "after Close racing with a segment-filling append and a reopen, StoreLogs(%d) = %v; schedule %v", nl.Index, err, ctl.Trace)
+		return
+	}
 	res.NonTrivial = closeInside
 	return
 }
